@@ -52,6 +52,7 @@ structure Frame (s s' : State) : Prop where
   closeW : 2 * s'.closeNew + s'.closePre ≤ 2 * s.closeNew + s.closePre
   closePost : s'.closePost = s.closePost
   closeRet : s'.closeReturned = s.closeReturned
+  log : s'.log = s.log
 
 theorem stalledLeft_set {stalled s k u u'} (h : stalledLeft stalled s) (hk : s.subs[k]? = some u)
     (hc : u.cancelled = true → u'.cancelled = true) (hd : u.pc = .done → u'.pc = .done)
@@ -86,7 +87,7 @@ theorem prog_closeCas {stalled s} (hH : Hyp stalled s) (hn : 0 < s.closeNew)
     ∃ s', step .fixed s .closeCas = some s' ∧ Prog stalled s s' := by
   refine ⟨{ s with closeNew := s.closeNew - 1, closePre := s.closePre + 1, closed := true }, ?_, ?_⟩
   · simp [step, closeCas, hn]
-  · refine ⟨⟨rfl, rfl, rfl, rfl, fun _ h => h, ?_, ?_, rfl, rfl⟩, ?_, ?_, Or.inl rfl⟩
+  · refine ⟨⟨rfl, rfl, rfl, rfl, fun _ h => h, ?_, ?_, rfl, rfl, rfl⟩, ?_, ?_, Or.inl rfl⟩
     · simp; omega
     · simp; omega
     · exact hyp_of hH (by simp; omega) (fun h => h)
@@ -97,7 +98,7 @@ theorem prog_closeChClose {stalled s} (hH : Hyp stalled s) (hcl : s.closed = tru
     ∃ s', step .fixed s .closeChClose = some s' ∧ Prog stalled s s' := by
   refine ⟨{ s with closeCh := true }, ?_, ?_⟩
   · simp [step, closeChClose, hcl, hcc]
-  · refine ⟨⟨rfl, rfl, rfl, rfl, fun _ h => h, rfl, Nat.le_refl _, rfl, rfl⟩, ?_, ?_, Or.inl rfl⟩
+  · refine ⟨⟨rfl, rfl, rfl, rfl, fun _ h => h, rfl, Nat.le_refl _, rfl, rfl, rfl⟩, ?_, ?_, Or.inl rfl⟩
     · exact hyp_of hH rfl (fun h => h)
     · simp [nu, nuC, nuF, hcc]
 
@@ -106,7 +107,7 @@ theorem prog_bcFinish {stalled s e pc} (hH : Hyp stalled s) (hbc : s.bc = some (
     ∃ s', step .fixed s .bcFinish = some s' ∧ Prog stalled s s' := by
   refine ⟨{ s with bc := none, retB := s.retB ++ [(e.ticket, true)] }, ?_, ?_⟩
   · simp [step, bcFinish, hbc, hpc]
-  · refine ⟨⟨rfl, rfl, rfl, rfl, ?_, rfl, Nat.le_refl _, rfl, rfl⟩, ?_, ?_, ?_⟩
+  · refine ⟨⟨rfl, rfl, rfl, rfl, ?_, rfl, Nat.le_refl _, rfl, rfl, rfl⟩, ?_, ?_, ?_⟩
     · intro x hx; simp; exact Or.inl hx
     · exact hyp_of hH rfl (fun h => h)
     · simp [nu, nuC, nuF, hbc]; omega
@@ -118,7 +119,7 @@ theorem prog_fan {stalled s e pc u u'} (hH : Hyp stalled s) (hbc : s.bc = some (
     (hc : u.cancelled = true → u'.cancelled = true) (hd : u.pc = .done → u'.pc = .done) :
     Prog stalled s { s with subs := s.subs.set pc u', bc := some (e, pc + 1) } := by
   have hlt := lt_of_getElem? hu
-  refine ⟨⟨by simp, rfl, rfl, rfl, fun _ h => h, rfl, Nat.le_refl _, rfl, rfl⟩, ?_, ?_, ?_⟩
+  refine ⟨⟨by simp, rfl, rfl, rfl, fun _ h => h, rfl, Nat.le_refl _, rfl, rfl, rfl⟩, ?_, ?_, ?_⟩
   · exact hyp_of hH rfl (fun h => stalledLeft_set h hu hc hd _ rfl)
   · have := sumM_set (u' := u') hu
     simp only [nu, nuC, nuF, hbc, List.length_set]
@@ -157,7 +158,7 @@ theorem prog_bcSkipGone {stalled s e pc u} (hH : Hyp stalled s) (hbc : s.bc = so
 theorem prog_fwd {stalled s i u u'} (hH : Hyp stalled s) (hu : s.subs[i]? = some u)
     (hm : subM u' < subM u) (hc : u.cancelled = true → u'.cancelled = true)
     (hd : u.pc = .done → u'.pc = .done) : Prog stalled s (setSub s i u') := by
-  refine ⟨⟨by simp [setSub], rfl, rfl, rfl, fun _ h => h, rfl, Nat.le_refl _, rfl, rfl⟩, ?_, ?_, Or.inl rfl⟩
+  refine ⟨⟨by simp [setSub], rfl, rfl, rfl, fun _ h => h, rfl, Nat.le_refl _, rfl, rfl, rfl⟩, ?_, ?_, Or.inl rfl⟩
   · exact hyp_of hH rfl (fun h => stalledLeft_set h hu hc hd _ rfl)
   · have := sumM_set (u' := u') hu
     have hF : nuF (setSub s i u') = nuF s := by simp only [nuF, setSub, List.length_set]
@@ -309,13 +310,13 @@ theorem fan_progress (stalled : Nat → Bool) {s : State} {e : Entry} {pc : Nat}
                     exact ⟨_, s', Or.inr ⟨pc, rfl, hst⟩, h1, h2⟩
 
 theorem Frame.refl (s : State) : Frame s s :=
-  ⟨rfl, rfl, rfl, rfl, fun _ h => h, rfl, Nat.le_refl _, rfl, rfl⟩
+  ⟨rfl, rfl, rfl, rfl, fun _ h => h, rfl, Nat.le_refl _, rfl, rfl, rfl⟩
 
 theorem Frame.trans {a b c : State} (h1 : Frame a b) (h2 : Frame b c) : Frame a c :=
   ⟨h2.len.trans h1.len, h2.waitB.trans h1.waitB, h2.waitS.trans h1.waitS, h2.retS.trans h1.retS,
    fun x hx => h2.retB x (h1.retB x hx), h2.closeSum.trans h1.closeSum,
    Nat.le_trans h2.closeW h1.closeW, h2.closePost.trans h1.closePost,
-   h2.closeRet.trans h1.closeRet⟩
+   h2.closeRet.trans h1.closeRet, h2.log.trans h1.log⟩
 
 /-- The lock can always be released: from any reachable state in which `Close` has been called or
 every stalled subscriber has left, permitted steps lead to a state where no fan-out holds the lock
@@ -451,5 +452,82 @@ theorem close_phase2 {s0 : State} (hr : Reach .fixed s0) (hbc : s0.bc = none)
               exact fromProg _ s' rfl h1 h2)
   obtain ⟨s', hpath, ⟨hr', _, _⟩, ht⟩ := key s0 ⟨hr, hbc, hp⟩
   exact ⟨s', hpath, hr', ht⟩
+
+theorem Path.preserve {v : Variant} {ok : Label → Prop} (Q : State → Prop)
+    (hQ : ∀ s l s', Reach v s → Q s → ok l → step v s l = some s' → Q s') {a b : State}
+    (p : Path v ok a b) (hr : Reach v a) (ha : Q a) : Q b := by
+  induction p with
+  | refl => exact ha
+  | cons l hl hs _ ih => exact ih (Reach.step l hr hs) (hQ _ l _ hr ha hl hs)
+
+/-- Subscriber `i` is subscribed and stays so: its forwarder is in its loop, its context is not
+cancelled, no Broadcast has skipped it, and nobody has called `Close`. -/
+def Live (i : Nat) (s : State) : Prop :=
+  s.closeNew + s.closePre + s.closePost + s.closeReturned = 0 ∧ s.closed = false ∧
+  s.closeCh = false ∧
+  ∃ u, s.subs[i]? = some u ∧ inLoop u = true ∧ u.cancelled = false ∧ u.missed = false
+
+theorem live_set {s : State} {i k : Nat} {u uk u' : Sub} (hu : s.subs[i]? = some u)
+    (hk : s.subs[k]? = some uk) (hlp : inLoop u = true) (hca : u.cancelled = false)
+    (hm : u.missed = false)
+    (hkeep : uk = u → inLoop u' = true ∧ u'.cancelled = false ∧ u'.missed = false) :
+    ∃ w, (s.subs.set k u')[i]? = some w ∧ inLoop w = true ∧ w.cancelled = false ∧ w.missed = false := by
+  by_cases hki : k = i
+  · subst hki
+    have : uk = u := by rw [hu] at hk; exact (Option.some.inj hk).symm
+    obtain ⟨a, b, c⟩ := hkeep this
+    exact ⟨u', by simp [List.getElem?_set, lt_of_getElem? hu], a, b, c⟩
+  · exact ⟨u, by simp [List.getElem?_set, hki, hu], hlp, hca, hm⟩
+
+theorem live_step (stalled : Nat → Bool) {i : Nat} {s s' : State} {l : Label}
+    (hr : Reach .fixed s) (hq : Live i s) (hl : allowed stalled l)
+    (hs : step .fixed s l = some s') : Live i s' := by
+  have hw := wf_reach s hr
+  have hid := idinv_reach s hr
+  obtain ⟨h0, hcl, hcc, u, hu, hlp, hca, hm⟩ := hq
+  have hsw := hw.subs i u hu
+  have hpc : u.pc = .idle ∨ u.pc = .holding := by simpa [inLoop] using hlp
+  have hex : u.exitClosed = false := by
+    cases h : u.exitClosed with
+    | false => rfl
+    | true => have := hsw.exitPc.mp h; rcases hpc with a | a <;> simp [a] at this
+  have hin : u.inList = true := by
+    cases h : u.inList with
+    | true => rfl
+    | false => have := hsw.listPc.mp h; rcases hpc with a | a <;> simp [a] at this
+  have hint : l.internal = true ∨ ∃ j, l = .fwdDeliver j := by
+    rcases hl with h | ⟨j, h, _⟩
+    · exact Or.inl h
+    · exact Or.inr ⟨j, h⟩
+  cases l
+  case fwdRemove k =>
+    obtain ⟨uk, huk, hpk, _, rfl⟩ := fwdRemove_spec hw hid (by simpa [step] using hs)
+    refine ⟨h0, hcl, hcc, ?_⟩
+    apply live_set hu huk hlp hca hm
+    intro e; subst e; rcases hpc with a | a <;> simp [a] at hpk
+  case subAcquire k j =>
+    unfold_step hs
+    split at hs
+    · split at hs
+      · split at hs <;> simp at hs
+        subst hs; exact ⟨h0, hcl, hcc, u, hu, hlp, hca, hm⟩
+      · split at hs
+        · simp at hs; subst hs
+          exact ⟨h0, hcl, hcc, u, by simp [List.getElem?_append_left (lt_of_getElem? hu), hu], hlp, hca, hm⟩
+        · split at hs <;> simp at hs
+          next hg => omega
+    · simp at hs
+  all_goals
+    simp [Label.internal] at hint <;> unfold_step hs <;> (repeat' split at hs) <;>
+    (try simp at hs) <;> (try subst hs)
+  all_goals first
+    | (exfalso; omega)
+    | (exact ⟨by simpa using h0, by simpa using hcl, by simpa using hcc, u, by simpa using hu, hlp, hca, hm⟩)
+    | (refine ⟨by simpa using h0, by simpa using hcl, by simpa using hcc, ?_⟩
+       apply live_set hu (by assumption) hlp hca hm
+       intro e; subst e
+       simp_all [inLoop])
+    | (simp_all; done)
+
 
 end Kit.Broadcaster
